@@ -770,6 +770,11 @@ fn decompress_udp(
     *decompressed_len += udp_repr.0.header_len() + payload.len();
     let mut udp = UdpPacket::new_unchecked(&mut buffer[..payload.len() + 8]);
     udp_repr.0.emit_header(&mut udp, udp_payload_len);
+    // Restore the checksum carried in-line, so that it is verified like that of any
+    // other UDP datagram once the datagram is complete. (An elided checksum stays zero.)
+    if let Some(checksum) = udp_packet.checksum() {
+        udp.set_checksum(checksum);
+    }
     buffer[8..][..payload.len()].copy_from_slice(payload);
     Ok(())
 }
